@@ -244,6 +244,15 @@ func (p *connectedPlayer) handleKickEvent(e *KickedFromServerEvent, friendlyReas
 		p.connectedServer_ = nil
 	}
 	p.mu.Unlock()
+	if kickedFromCurrent && previousConnection != nil {
+		// The connection is forgotten as invalid: make sure it really is closed. Callers
+		// normally have closed it already, but the kicked server is identified by name, so
+		// this can also be a newer, live connection to that server (e.g. the player was
+		// redirected back to the server that kicked it while the failed request's own
+		// handling was still to come); left open it would stay behind, with the player on
+		// that server's player list, when the player moves on.
+		previousConnection.disconnect()
+	}
 
 	if !p.Active() {
 		// If the connection is no longer active, we don't have to try recover it.
